@@ -245,6 +245,17 @@ func checkC01(e *world.Env, conns []*c01Conn, ops []*world.Op) {
 				e.Fail("C01/handler-meta-differs", "op %s (%s): handler meta %q carries %s, which this message was not sent with (it was sent with %q)", op.Tag, cellInfo, s.ev.Meta, k, op.MetaK)
 			}
 		}
+		// further entries (added, overwritten, deleted again by the sender's settings): exactly those that are left,
+		// with their values, and no other key of that family
+		extra := world.ExpectedExtraMeta(op)
+		for _, kv := range extra {
+			if !world.MetaHas(s.ev.Meta, kv[0], kv[1]) {
+				e.Fail("C01/handler-meta-differs", "op %s (%s): handler meta %q lacks %s=%s (settings %v)", op.Tag, cellInfo, s.ev.Meta, kv[0], kv[1], op.MetaSteps)
+			}
+		}
+		if got := strings.Count("&"+s.ev.Meta, "&Ex-"); got != len(extra) {
+			e.Fail("C01/handler-meta-differs", "op %s (%s): handler meta %q carries %d extra entries, the sender left %d (settings %v)", op.Tag, cellInfo, s.ev.Meta, got, len(extra), op.MetaSteps)
+		}
 		if op.Kind == "push" {
 			continue
 		}
